@@ -766,6 +766,14 @@ class FormulaTranslator(object):
                 raise Unsupported('`%s` (line %d): abs of a natural number' % (self.src(node), node.lineno))
             v = self.as_number(self.expr(nargs[0], env), nargs[0])
             return Val(v.t, ('ite', ('lt', v.e, _num(0)), ('neg', v.e), v.e))
+        if p in ('np.sign', 'numpy.sign'):
+            # np.sign(x) of a non-NaN number: 1, -1 or 0
+            if len(nargs) != 1 or kws:
+                raise Unsupported('`%s` (line %d): expected one argument' % (self.src(node), node.lineno))
+            if spec.scalar == 'Nat':
+                raise Unsupported('`%s` (line %d): sign of a natural number' % (self.src(node), node.lineno))
+            v = self.as_number(self.expr(nargs[0], env), nargs[0])
+            return Val(v.t, ('ite', ('lt', _num(0), v.e), _num(1), ('ite', ('lt', v.e, _num(0)), ('neg', _num(1)), _num(0))))
         if p in ('np.prod', 'numpy.prod'):
             # np.prod([t.attr for t in <list the spec knows>])  ↦  prodList <list parameter>
             a = nargs[0] if len(nargs) == 1 and not kws else None
@@ -1407,6 +1415,12 @@ def formula_specs(trees):
                                       'self.distribution.deviance': dev},
                              what='`self._linear_predictor(modelmat)` ↦ `lp`, `self.link.mu(·, dist)` ↦ `linkInv`, '
                                   '`self.distribution.deviance(y, mu, weights, scaled)` ↦ `deviance` (entrywise); returns (GCV, UBRE)'))
+    specs.append(FormulaSpec('deviance_residual', 'gam', ('pygam.py', 'GAM', 'deviance_residuals', None),
+                             pre=[('deviance', 'α → α → α → Bool → α')], params=['X', 'S', 'S', 'B'], attrs=gam_attrs,
+                             callees={'self.distribution.deviance': dev},
+                             fragment=frag_deviance_residual_tail, frag_vars={'mu': ('S', 'mu')},
+                             what='one entry; the statements from `sign = …` to the `return` (after validation and `mu = predict_mu(X)`); '
+                                  '`np.sign(x)` ↦ `if 0 < x then 1 else if x < 0 then -1 else 0`; `self.distribution.deviance(y, mu, weights, scaled)` ↦ `deviance`'))
     # the built-in Deviance callback: what is logged at the start of each iteration (C20)
     cb_attrs = {'dist.distribution': ('D', None)}      # the `gam` parameter has role 'D' (an object whose attributes are read): its paths start with `dist`
     specs.append(FormulaSpec('callback_deviance', 'gam', ('callbacks.py', 'Deviance', 'on_loop_start', None),
@@ -1558,6 +1572,19 @@ def frag_quantile_level_check(fn):
                 return [body[0], assign]
             raise Unsupported('the first `for quantile in quantiles:` loop is not a single `if …: raise …`')
     raise Unsupported('no top-level `for quantile in quantiles:` loop')
+
+
+def frag_deviance_residual_tail(fn):
+    """`GAM.deviance_residuals`: the trailing statements from `sign = …` to the final `return` (what is computed once the
+    inputs are validated and `mu` predicted)"""
+    body = fn.body
+    for i, s in enumerate(body):
+        if isinstance(s, ast.Assign) and len(s.targets) == 1 and isinstance(s.targets[0], ast.Name) and s.targets[0].id == 'sign':
+            tail = body[i:]
+            if not isinstance(tail[-1], ast.Return):
+                raise Unsupported('the statements after `sign = …` do not end in `return`')
+            return tail
+    raise Unsupported('no top-level assignment `sign = …`')
 
 
 frag_leading_raises = make_frag_leading_raises('n_draws')
